@@ -192,11 +192,49 @@ def decimalLiteral (raw : Bytes) : Option Int :=
 
 def fitsInt64 (i : Int) : Bool := decide (-9223372036854775808 ≤ i) && decide (i ≤ 9223372036854775807)
 
+/-- the rest after a maximal run of digits -/
+def dropDigits : Bytes → Bytes
+  | [] => []
+  | c :: r => if isDigit c then dropDigits r else c :: r
+
+/-- `[0-9]+`: the rest after the run, `none` when there is no digit -/
+def digits1 : Bytes → Option Bytes
+  | [] => none
+  | c :: r => if isDigit c then some (dropDigits r) else none
+
+/-- `[+-]?[0-9]+` up to the end of the text (what follows `e` / `E`) -/
+def exponentTail (s : Bytes) : Bool :=
+  let s' := match s with
+    | [] => []
+    | c :: r => if c = 43 ∨ c = 45 then r else c :: r
+  match digits1 s' with
+  | some [] => true
+  | _ => false
+
+/-- `-?[0-9]+(\.[0-9]+)?([eE][+-]?[0-9]+)?` with a fraction or an exponent (the FloatValue
+    tokens of the grammar, leading zeros not excluded) -/
+def floatLexeme (raw : Bytes) : Bool :=
+  let body := match raw with
+    | [] => []
+    | c :: r => if c = 45 then r else c :: r
+  match digits1 body with
+  | none => false
+  | some [] => false
+  | some (c :: r2) =>
+    if c = 46 then
+      match digits1 r2 with
+      | none => false
+      | some [] => true
+      | some (e :: r3) => (e = 101 || e = 69) && exponentTail r3
+    else (c = 101 || c = 69) && exponentTail r2
+
 mutual
   /-- the Go value a literal denotes ("lists and input objects converted recursively, variables
       inside them substituted": supplied value, else `dflt` of the variable, else null).
-      `none`: the literal denotes no representable value (integer beyond int64, float beyond
-      float64, malformed) -/
+      Numbers: an integer literal that fits int64 denotes that int64; every other number literal
+      denotes the float64 nearest to it (±Inf beyond float64) — carried as its TEXT
+      (`.float false raw`; observations compare the float64 of the text, `impl.CanonFloats`).
+      `none`: the leaf is not a literal of the grammar (malformed text) -/
   def literalSpec (dflt : Name → Option GoVal) (vars : VarMap) : Value → Option GoVal
     | .mk kind raw children _ =>
       match kind with
@@ -205,9 +243,11 @@ mutual
         | some v => some v
         | none => some ((dflt raw).getD .nil)
       | .int => match decimalLiteral raw with
-        | some i => if fitsInt64 i then some (.int .int64 i) else none
+        -- an integer literal beyond int64 is still a number: the float64 nearest to it
+        | some i => if fitsInt64 i then some (.int .int64 i) else some (.float false raw)
         | none => none
-      | .float => if parseFloatOk raw then some (.float false raw) else none
+      -- the float64 nearest to the literal, ±Inf when it is beyond float64
+      | .float => if floatLexeme raw then some (.float false raw) else none
       | .string | .block | .enum => some (.str raw)
       | .boolean => if raw = str "true" then some (.bool true) else if raw = str "false" then some (.bool false) else none
       | .null => some .nil
@@ -232,18 +272,20 @@ end
 /- ---- hypotheses of the C15 theorems, as decidable predicates on literals ---- -/
 
 mutual
-  /-- every Int / Float / Boolean leaf of the literal converts (`strconv` succeeds on its text) -/
-  def convertsB : Value → Bool
+  /-- `strconv` finds no SYNTAX error in any Int / Float / Boolean leaf of the literal (range
+      errors no longer matter: number literals always convert).  Model-level hypothesis of
+      `C15_total_syntaxOk`; every lexer-produced literal satisfies it (`wellLexed_syntaxOk`). -/
+  def syntaxOkB : Value → Bool
     | .mk kind raw children _ =>
       match kind with
-      | .int => parseIntOk raw
-      | .float => parseFloatOk raw
+      | .int => (match parseInt raw with | .syntax => false | _ => true)
+      | .float => (match parseFloat raw with | .syntax => false | _ => true)
       | .boolean => (parseBool raw).isSome
-      | .list | .object => childrenConvertB children
+      | .list | .object => childrenSyntaxOkB children
       | _ => true
-  def childrenConvertB : Children → Bool
+  def childrenSyntaxOkB : Children → Bool
     | .nil => true
-    | .cons _ v _ rest => convertsB v && childrenConvertB rest
+    | .cons _ v _ rest => syntaxOkB v && childrenSyntaxOkB rest
 end
 
 mutual
@@ -266,12 +308,13 @@ def intLexeme (raw : Bytes) : Bool :=
   | ds => !ds.isEmpty && ds.all isDigit
 
 mutual
-  /-- leaves are written as the lexer produces them: Int tokens are `-?[0-9]+`, Boolean tokens
-      are `true` / `false` -/
+  /-- leaves are written as the lexer produces them: Int tokens are `-?[0-9]+`, Float tokens are
+      `-?[0-9]+(\.[0-9]+)?([eE][+-]?[0-9]+)?`, Boolean tokens are `true` / `false` -/
   def wellLexedB : Value → Bool
     | .mk kind raw children _ =>
       match kind with
       | .int => intLexeme raw
+      | .float => floatLexeme raw
       | .boolean => raw = str "true" || raw = str "false"
       | .list | .object => childrenWellLexedB children
       | _ => true
@@ -280,9 +323,14 @@ mutual
     | .cons _ v _ rest => wellLexedB v && childrenWellLexedB rest
 end
 
-/-- the defaults of the variable definitions are constant literals whose leaves convert -/
-def DefaultsConvert (vdefs : List VarDef) : Prop :=
-  ∀ d ∈ vdefs, ∀ dv, d.default = some dv → convertsB dv = true ∧ constB dv = true
+/-- the defaults of the variable definitions are constant literals without syntax errors in their leaves -/
+def DefaultsSyntaxOk (vdefs : List VarDef) : Prop :=
+  ∀ d ∈ vdefs, ∀ dv, d.default = some dv → syntaxOkB dv = true ∧ constB dv = true
+
+/-- the defaults of the variable definitions are constant literals as the lexer produces them
+    (the grammar: `DefaultValue : = Value[Const]`) -/
+def DefaultsLexed (vdefs : List VarDef) : Prop :=
+  ∀ d ∈ vdefs, ∀ dv, d.default = some dv → wellLexedB dv = true ∧ constB dv = true
 
 /-- every variable that has a default has an entry in the variables map (what coercion
     establishes: C14_defaults) -/
